@@ -1151,6 +1151,13 @@ fn main() {
             (Pipe::Each("num", bx(g(4))), Cons::By("find", "even")),
             (Pipe::Enumerate(bx(Pipe::Keep("even", bx(g(4))))), Cons::Copy(1, true)),
             (Pipe::Flatten(bx(Pipe::Src(Src::List(elems(2, 4, 10))))), Cons::Simple("tolist")),
+            // Peekable: peeked elements stay part of the sequence, also when reached from the other end
+            (Pipe::Skip(1, bx(ob(3))), Cons::PeekOps("pqnbpq".chars().collect())),
+            (Pipe::Src(Src::Tuple(ints(1))), Cons::PeekOps("pqbnp".chars().collect())),
+            (g(3), Cons::PeekOps("ppnpnnp".chars().collect())),
+            // host bytes from the back (F-C13-1, fixed) and a copied peekable (F-C13-2, fixed)
+            (Pipe::Reversed(bx(Pipe::Src(Src::HostBytes(3)))), Cons::Simple("tolist")),
+            (Pipe::Peekable(bx(g(3))), Cons::Copy(1, true)),
         ];
         let arr: Vec<serde_json::Value> = picks
             .iter()
